@@ -25,11 +25,11 @@ theorem containsLocal_iff {g : Int → ZI} (h : Spec g) (t l : Int) (hl : Interi
   containsLocal_iff_aux (g t) l (h.shaped t) hl
 
 section
-variable {g : Int → ZI} (h : Spec g)
-include h
+variable {g : Int → ZI} (h : Spec g) {get : Int → R ZI} (hget : Agrees get g)
+include h hget
 
 /-- every reported instant renders as the requested local value -/
-theorem mapLocal_sound {l : Int} (hl : Interior l) (m : Mapping) (hm : mapLocal (getT g) l = .ok m) :
+theorem mapLocal_sound {l : Int} (hl : Interior l) (m : Mapping) (hm : mapLocal get l = .ok m) :
     ∀ t ∈ results m l, Renders g t l := by
   have hv := iv_valid_l h hl
   have hI := h.part l hv.1 hv.2
@@ -47,7 +47,7 @@ theorem mapLocal_sound {l : Int} (hl : Interior l) (m : Mapping) (hm : mapLocal 
     have hvt : MINI ≤ t ∧ t ≤ MAXI := by simp only [Interior] at hl; zconsts; omega
     have : g t = g u := h.const u t hu1 hu2 hvt.1 hvt.2 h1 h2
     exact ⟨hvt.1, hvt.2, by rw [this]; omega⟩
-  rw [mapLocal_eq h hl] at hm
+  rw [mapLocal_eq h hget hl] at hm
   simp only [Except.ok.injEq] at hm
   subst hm
   intro t ht
@@ -88,7 +88,7 @@ theorem mapLocal_sound {l : Int} (hl : Interior l) (m : Mapping) (hm : mapLocal 
       · split at ht <;> simp [results] at ht
 
 /-- every instant that renders as the requested local value is reported -/
-theorem mapLocal_complete {l : Int} (hl : Interior l) (m : Mapping) (hm : mapLocal (getT g) l = .ok m)
+theorem mapLocal_complete {l : Int} (hl : Interior l) (m : Mapping) (hm : mapLocal get l = .ok m)
     (t : Int) (ht : Renders g t l) : t ∈ results m l := by
   obtain ⟨ht1, ht2, ht3⟩ := ht
   have hv := iv_valid_l h hl
@@ -102,7 +102,7 @@ theorem mapLocal_complete {l : Int} (hl : Interior l) (m : Mapping) (hm : mapLoc
   have wP := h.bounded ((g l).s - 1)
   have wN := h.bounded (g l).e
   have eI := h.ends l
-  rw [mapLocal_eq h hl] at hm
+  rw [mapLocal_eq h hget hl] at hm
   simp only [Except.ok.injEq] at hm
   subst hm
   -- where does t live: in the guessed interval, the one before, or the one after
@@ -158,22 +158,22 @@ theorem mapLocal_complete {l : Int} (hl : Interior l) (m : Mapping) (hm : mapLoc
       split <;> simp [results, ht']
 
 /-- at most two results, as many as the reported count -/
-theorem mapLocal_count_le_two {l : Int} (hl : Interior l) (m : Mapping) (hm : mapLocal (getT g) l = .ok m) :
+theorem mapLocal_count_le_two {l : Int} (hl : Interior l) (m : Mapping) (hm : mapLocal get l = .ok m) :
     m.count ≤ 2 ∧ (results m l).length = m.count := by
-  rw [mapLocal_eq h hl] at hm
+  rw [mapLocal_eq h hget hl] at hm
   simp only [Except.ok.injEq] at hm
   subst hm
   (repeat' split) <;> simp [results]
 
 /-- with two results the earlier instant comes first -/
-theorem mapLocal_sorted {l : Int} (hl : Interior l) (m : Mapping) (hm : mapLocal (getT g) l = .ok m)
+theorem mapLocal_sorted {l : Int} (hl : Interior l) (m : Mapping) (hm : mapLocal get l = .ok m)
     (h2 : m.count = 2) : l - m.early.wall * NPS < l - m.late.wall * NPS ∧ m.early.e = m.late.s := by
   have hv := iv_valid_l h hl
   have hI := h.part l hv.1 hv.2
   have cI := containsLocal_iff_aux (g l) l (h.shaped _) hl
   have cP := containsLocal_iff_aux (g ((g l).s - 1)) l (h.shaped _) hl
   have cN := containsLocal_iff_aux (g (g l).e) l (h.shaped _) hl
-  rw [mapLocal_eq h hl] at hm
+  rw [mapLocal_eq h hget hl] at hm
   simp only [Except.ok.injEq] at hm
   subst hm
   split at h2
@@ -198,7 +198,7 @@ theorem mapLocal_sorted {l : Int} (hl : Interior l) (m : Mapping) (hm : mapLocal
   · (repeat' split at h2) <;> simp at h2
 
 /-- no result: the two reported intervals are adjacent and the local value falls in the gap between them -/
-theorem mapLocal_gap {l : Int} (hl : Interior l) (m : Mapping) (hm : mapLocal (getT g) l = .ok m)
+theorem mapLocal_gap {l : Int} (hl : Interior l) (m : Mapping) (hm : mapLocal get l = .ok m)
     (h0 : m.count = 0) :
     m.early.e = m.late.s ∧ m.early.e + m.early.wall * NPS ≤ l ∧ l < m.late.s + m.late.wall * NPS := by
   have hv := iv_valid_l h hl
@@ -209,7 +209,7 @@ theorem mapLocal_gap {l : Int} (hl : Interior l) (m : Mapping) (hm : mapLocal (g
   have wI := h.bounded l
   have wP := h.bounded ((g l).s - 1)
   have wN := h.bounded (g l).e
-  rw [mapLocal_eq h hl] at hm
+  rw [mapLocal_eq h hget hl] at hm
   simp only [Except.ok.injEq] at hm
   subst hm
   split at h0
@@ -255,40 +255,40 @@ theorem mapLocal_gap {l : Int} (hl : Interior l) (m : Mapping) (hm : mapLocal (g
 
 /-- an instant rendered in the zone and mapped back is recovered among the results -/
 theorem instant_roundtrip (t : Int) (ht1 : MINI ≤ t) (ht2 : t ≤ MAXI) (hl : Interior (t + (g t).wall * NPS))
-    (m : Mapping) (hm : mapLocal (getT g) (t + (g t).wall * NPS) = .ok m) :
+    (m : Mapping) (hm : mapLocal get (t + (g t).wall * NPS) = .ok m) :
     t ∈ results m (t + (g t).wall * NPS) :=
-  mapLocal_complete h hl m hm t ⟨ht1, ht2, rfl⟩
+  mapLocal_complete h hget hl m hm t ⟨ht1, ht2, rfl⟩
 
 /-- the reported intervals are intervals of the zone -/
-theorem mapLocal_intervals {l : Int} (hl : Interior l) (m : Mapping) (hm : mapLocal (getT g) l = .ok m) :
+theorem mapLocal_intervals {l : Int} (hl : Interior l) (m : Mapping) (hm : mapLocal get l = .ok m) :
     (∃ u, m.early = g u) ∧ (∃ v, m.late = g v) := by
-  rw [mapLocal_eq h hl] at hm
+  rw [mapLocal_eq h hget hl] at hm
   simp only [Except.ok.injEq] at hm
   subst hm
   (repeat' split) <;> exact ⟨⟨_, rfl⟩, ⟨_, rfl⟩⟩
 
-omit h in
+omit h hget in
 theorem buildInstant_ok {l : Int} (hl : Interior l) (z : ZI) (hz : -64800 ≤ z.wall ∧ z.wall ≤ 64800) :
     buildInstant l z = .ok (l - z.wall * NPS) :=
   untrusted_ok _ (by simp only [Interior] at hl; zconsts; omega) (by simp only [Interior] at hl; zconsts; omega)
 
 /-- strict resolver: skipped → SkippedTimeError, ambiguous → AmbiguousTimeError, otherwise the unique instant -/
-theorem strict_spec {l : Int} (hl : Interior l) (m : Mapping) (hm : mapLocal (getT g) l = .ok m) :
-    (m.count = 0 → atStrictly (getT g) l = .error .skippedTime) ∧
-    (m.count = 1 → atStrictly (getT g) l = .ok (l - m.early.wall * NPS)) ∧
-    (m.count = 2 → atStrictly (getT g) l = .error .ambiguousTime) := by
-  obtain ⟨⟨u, hu⟩, _⟩ := mapLocal_intervals h hl m hm
+theorem strict_spec {l : Int} (hl : Interior l) (m : Mapping) (hm : mapLocal get l = .ok m) :
+    (m.count = 0 → atStrictly get l = .error .skippedTime) ∧
+    (m.count = 1 → atStrictly get l = .ok (l - m.early.wall * NPS)) ∧
+    (m.count = 2 → atStrictly get l = .error .ambiguousTime) := by
+  obtain ⟨⟨u, hu⟩, _⟩ := mapLocal_intervals h hget hl m hm
   have hb := buildInstant_ok hl m.early (by rw [hu]; exact h.bounded u)
   simp only [atStrictly, hm, bind, Except.bind]
   refine ⟨?_, ?_, ?_⟩ <;> intro hc <;> simp only [hc, hb]
 
 /-- lenient resolver: the earlier instant when ambiguous; a skipped time is shifted forward by the length of
     the gap, landing inside the interval after the gap -/
-theorem lenient_spec {l : Int} (hl : Interior l) (m : Mapping) (hm : mapLocal (getT g) l = .ok m) :
-    atLeniently (getT g) l = .ok (l - m.early.wall * NPS) ∧
+theorem lenient_spec {l : Int} (hl : Interior l) (m : Mapping) (hm : mapLocal get l = .ok m) :
+    atLeniently get l = .ok (l - m.early.wall * NPS) ∧
     (m.count = 0 → m.late.s ≤ l - m.early.wall * NPS ∧ l - m.early.wall * NPS < m.late.e ∧
       (l - m.early.wall * NPS) + m.late.wall * NPS = l + (m.late.wall - m.early.wall) * NPS) := by
-  obtain ⟨⟨u, hu⟩, ⟨v, hv'⟩⟩ := mapLocal_intervals h hl m hm
+  obtain ⟨⟨u, hu⟩, ⟨v, hv'⟩⟩ := mapLocal_intervals h hget hl m hm
   have hbe : -64800 ≤ m.early.wall ∧ m.early.wall ≤ 64800 := by rw [hu]; exact h.bounded u
   have hbl : -64800 ≤ m.late.wall ∧ m.late.wall ≤ 64800 := by rw [hv']; exact h.bounded v
   have hb := buildInstant_ok hl m.early hbe
@@ -297,7 +297,7 @@ theorem lenient_spec {l : Int} (hl : Interior l) (m : Mapping) (hm : mapLocal (g
   · simp only [atLeniently, hm, bind, Except.bind]
     split <;> simp only [hb, hun]
   · intro h0
-    obtain ⟨g1, g2, g3⟩ := mapLocal_gap h hl m hm h0
+    obtain ⟨g1, g2, g3⟩ := mapLocal_gap h hget hl m hm h0
     refine ⟨by omega, ?_, by simp only [NPS]; omega⟩
     have hiv := iv_valid_l h hl
     rcases (h.ends v).2 with hb' | hb'
@@ -314,7 +314,7 @@ theorem lenient_spec {l : Int} (hl : Interior l) (m : Mapping) (hm : mapLocal (g
 
 /-- the full statement of start-of-day: the earliest instant whose local date is the given date -/
 def startOfDayStatement (g : Int → ZI) : Prop :=
-  ∀ l, Interior l → l % NPD = 0 → ∀ r, atStartOfDay (getT g) l = .ok r →
+  ∀ l, Interior l → l % NPD = 0 → ∀ r, atStartOfDay get l = .ok r →
     (dayOf (r + (g r).wall * NPS) = dayOf l ∧
      ∀ t, MINI ≤ t → t < r → dayOf (t + (g t).wall * NPS) ≠ dayOf l)
 
@@ -322,13 +322,13 @@ def startOfDayStatement (g : Int → ZI) : Prop :=
     none, it is the start of the interval after the gap provided that instant still falls on the date (else
     SkippedTimeError), and every instant of the interval before the gap renders before local midnight.
     Missing w.r.t. `startOfDayStatement`: minimality against instants more than one interval away. -/
-theorem startOfDay_spec_partial {l : Int} (hl : Interior l) (m : Mapping) (hm : mapLocal (getT g) l = .ok m) :
-    (m.count ≠ 0 → atStartOfDay (getT g) l = .ok (l - m.early.wall * NPS)) ∧
+theorem startOfDay_spec_partial {l : Int} (hl : Interior l) (m : Mapping) (hm : mapLocal get l = .ok m) :
+    (m.count ≠ 0 → atStartOfDay get l = .ok (l - m.early.wall * NPS)) ∧
     (m.count = 0 →
-      (dayOf (m.late.s + m.late.wall * NPS) = dayOf l → atStartOfDay (getT g) l = .ok m.late.s) ∧
-      (dayOf (m.late.s + m.late.wall * NPS) ≠ dayOf l → atStartOfDay (getT g) l = .error .skippedTime) ∧
+      (dayOf (m.late.s + m.late.wall * NPS) = dayOf l → atStartOfDay get l = .ok m.late.s) ∧
+      (dayOf (m.late.s + m.late.wall * NPS) ≠ dayOf l → atStartOfDay get l = .error .skippedTime) ∧
       (∀ t, m.early.s ≤ t → t < m.early.e → t + m.early.wall * NPS < l)) := by
-  obtain ⟨⟨u, hu⟩, ⟨v, hv'⟩⟩ := mapLocal_intervals h hl m hm
+  obtain ⟨⟨u, hu⟩, ⟨v, hv'⟩⟩ := mapLocal_intervals h hget hl m hm
   have hbe : -64800 ≤ m.early.wall ∧ m.early.wall ≤ 64800 := by rw [hu]; exact h.bounded u
   have hb := buildInstant_ok hl m.early hbe
   constructor
@@ -340,7 +340,7 @@ theorem startOfDay_spec_partial {l : Int} (hl : Interior l) (m : Mapping) (hm : 
          · exact absurd ‹_› hc
          · exact hb)
   · intro h0
-    obtain ⟨g1, g2, g3⟩ := mapLocal_gap h hl m hm h0
+    obtain ⟨g1, g2, g3⟩ := mapLocal_gap h hget hl m hm h0
     have hiv := iv_valid_l h hl
     have hls : MINI ≤ m.late.s ∧ m.late.s ≤ MAXI := by
       rw [← g1]
